@@ -3,7 +3,10 @@
 (* declaratively over exact integers / rationals, for property C17 (text.Linebreak) and, through   *)
 (* the per-line operators, C16.  Nothing here is a dynamic program: a breaking is any set of legal *)
 (* breakpoints that contains every forced break and the final one; its lines, ratios, feasibility  *)
-(* and demerits are defined line by line; the optimum is found by enumerating ALL breakings.       *)
+(* and demerits are defined line by line; the optimum is found by enumerating ALL breakings        *)
+(* (AllJudged), or - the same set minus the breakings with a surely infeasible line - all paths    *)
+(* through the lines that are not surely infeasible (FeasFrom / PathsFrom; invariants FeasComplete *)
+(* and PathsAgree tie the path enumerations to the brute-force one). No cost-based pruning anywhere.*)
 (*                                                                                                  *)
 (* item  = <<t, w, y, z, p, f>>   t = 0 box | 1 glue | 2 penalty ; w width ; y stretch ; z shrink ;  *)
 (*                                p penalty (>= Inf: never break, <= -Inf: forced) ; f = 1 flagged   *)
@@ -12,7 +15,8 @@
 (* looseness 0.  Positions are 1-based here and printed 0-based (library convention).              *)
 EXTENDS Integers, Sequences, FiniteSets, TLC, Json, Randomization
 
-CONSTANTS Mode,      \* "exh": every item list with NFree free items | "rand": RandomSubset(NRand, ..) of them | "none"
+CONSTANTS Mode,      \* "exh": every item list with NFree free items | "rand": RandomSubset(NRand, ..) of them
+                     \* "para": NRand paragraph-shaped lists of NFree words | "none" (trace specs)
           NFree,     \* number of free items (the list is free \o <<Glue(0,Inf,0), Penalty(-Inf)>>)
           NRand,
           MinW, MaxW,  \* line widths MinW..MaxW
